@@ -1,6 +1,7 @@
 package main
 
 import (
+	"strings"
 	"reflect"
 	"go/constant"
 	"go/token"
@@ -361,6 +362,14 @@ func equalEdge(match func(a, b ssa.Value) bool, want bool) EdgePred {
 		truth := (br == 0) != c.Neg
 		if c.Call != nil && c.Idx < 0 {
 			o := calleeObj(&c.Call.Call)
+			// errors.Is(err, ErrX): the error (chain) is the sentinel
+			if nm := calleeName(&c.Call.Call); (nm == "errors.Is" || strings.HasSuffix(nm, "/errors.Is")) && len(c.Call.Call.Args) == 2 {
+				a, b := c.Call.Call.Args[0], c.Call.Call.Args[1]
+				if match(a, b) || match(b, a) {
+					return truth == want
+				}
+				return false
+			}
 			if o != nil && o.Name() == "Equal" && len(c.Call.Call.Args) == 2 {
 				a, b := c.Call.Call.Args[0], c.Call.Call.Args[1]
 				if match(a, b) || match(b, a) {
